@@ -16,8 +16,8 @@ RULE = (
     "form without constants - an identical graph; the argument must be unchanged. non-trivial = >=2 gates; distinct = canonical circuit + flags"
 )
 BUDGET = {
-    "quick": {"workers": 16, "cases": 40, "secs": 45, "min_cases": 350},
-    "thorough": {"workers": 16, "rounds": 4, "cases": 160, "secs": 240, "min_cases": 3500},
+    "quick": {"workers": 16, "cases": 170, "secs": 60, "min_cases": 1360},
+    "thorough": {"workers": 16, "rounds": 4, "cases": 520, "secs": 420, "min_cases": 16640},
 }
 ANCHORS = ["io:circuit_to_verilog", "io:verilog_to_circuit", "io:to_file", "io:from_file"]
 
